@@ -210,6 +210,19 @@ fn probe_indices(shape: &[usize], dynamic: bool) -> Vec<Vec<usize>> {
 }
 
 // ------------------------------------------------------------------ probing accepted tensors
+/// `offset()` answered with an offset that the harness' own check does not prove safe to
+/// dereference (invalid index, or offset beyond the storage): report that answer as it is and
+/// do not touch memory.
+fn unsafe_to_deref(off: &Result<Option<usize>, Out>, idx: &[usize], shape: &[usize], n: usize) -> Option<Out> {
+    if let Ok(Some(o)) = off {
+        let valid = idx.len() == shape.len() && idx.iter().zip(shape.iter()).all(|(i, s)| i < s);
+        if !valid || *o >= n {
+            return Some(Out::OffSome(*o));
+        }
+    }
+    None
+}
+
 fn probe_result<T: Elem>(
     off: Result<Option<usize>, Out>,
     got: Result<Option<Option<usize>>, Out>,
@@ -263,6 +276,10 @@ fn observe_nd<const N: usize, T: Elem, S: rten_tensor::Storage<Elem = T>>(
         for idx in probe_indices(&shape, false) {
             let a: [usize; N] = idx.as_slice().try_into().unwrap();
             let off = guarded(|| t.offset(a));
+            if let Some(o) = unsafe_to_deref(&off, &idx, &shape, n) {
+                probes.push((idx, o));
+                continue;
+            }
             let got = guarded(|| t.get(a).map(|e| e.off()));
             let indexed = guarded(|| t[a].off());
             probes.push((idx, probe_result::<T>(off, got, indexed)));
@@ -282,6 +299,10 @@ fn observe_dyn<T: Elem, S: rten_tensor::Storage<Elem = T>>(
         for idx in probe_indices(&shape, true) {
             let a: &[usize] = idx.as_slice();
             let off = guarded(|| t.offset(a));
+            if let Some(o) = unsafe_to_deref(&off, &idx, &shape, n) {
+                probes.push((idx.clone(), o));
+                continue;
+            }
             let got = guarded(|| t.get(a).map(|e| e.off()));
             let indexed = guarded(|| t[a].off());
             probes.push((idx.clone(), probe_result::<T>(off, got, indexed)));
@@ -765,7 +786,7 @@ fn generate(seed: u64, n: usize, tier: &str, out: &mut impl Write) {
         (vec![1 << 63, 1 << 63], vec![1 << 63, 1]),
     ];
     for (shape, strides) in &fixed {
-        for kind in ["nd", "dyn"] {
+        for kind in kind_alt(thorough) {
             for len in lens_around(shape, &contiguous_strides(shape)).into_iter().chain([0usize, 1, usize::MAX]) {
                 emit_ctor(out, "tfd", kind, shape, &[], len);
                 emit_ctor(out, "fd", kind, shape, &[], len);
